@@ -21,6 +21,7 @@ SHAPES = {
 def gen_network(rng, n_motifs, loopy):
     motifs = []          # {"verts": [...], "edges": [(a,b)...], "id": k}
     base = rng.choice([0, 0, 1000])      # motif identifiers need not be small numbers
+    coded = rng.random() < 0.25          # topology keys that are codes (0 for an edge, 1 for a triangle ...), not sizes
     nv = 0
     member = {}          # vertex -> set of motif ids
     for k in range(n_motifs):
@@ -45,23 +46,30 @@ def gen_network(rng, n_motifs, loopy):
         # attached vertices must not be adjacent in the new motif if they are... (they share no motif, so no duplicate edge)
         edges = [(verts[a], verts[b]) for a, b in pat]
         mid = base + k * 3 + rng.randint(0, 2)
-        motifs.append({"verts": verts, "edges": edges, "id": mid})
+        motifs.append({"verts": verts, "edges": edges, "id": mid, **({"key": max(0, size - 2) + (7 if len(edges) > size else 0)} if coded else {})})
         for v in verts:
             member.setdefault(v, set()).add(mid)
     rows = []
     for m in motifs:
         for a, b in m["edges"]:
-            rows.append([a, b, {"verts": m["verts"], "edges": [list(e) for e in m["edges"]], "id": m["id"]}])
+            rows.append([a, b, {"verts": m["verts"], "edges": [list(e) for e in m["edges"]], "id": m["id"],
+                                **({"key": m["key"]} if "key" in m else {})}])
     rng.shuffle(rows)
     nodes = sorted(member)
     rng.shuffle(nodes)
     return nodes, rows, motifs
 
 
+def label_key(lab):
+    """the first field of a cover label names the motif's topology: its size in the covers the library writes itself, any code
+    in a cover written by someone else (lab["key"])"""
+    return lab.get("key", len(lab["verts"]))
+
+
 def label_str(lab):
     verts = list(lab["verts"])
     edges = [tuple(e) for e in lab["edges"]]
-    return f"{len(verts)}-{verts}-{edges}-{lab['id']}"
+    return f"{label_key(lab)}-{verts}-{edges}-{lab['id']}"
 
 
 def expectation(edges, root, phi, u):
@@ -191,7 +199,7 @@ class C17(Prop):
             s = mpm.get_edge_cover_label(a, b)
             if (mpm.get_motif_ID(s) != lab["id"] or list(mpm.get_vertices_in_motif(s)) != list(lab["verts"])
                     or [list(e) for e in mpm.get_edges_in_motif(s)] != [list(e) for e in lab["edges"]]
-                    or mpm.get_motif_topology(s) != len(lab["verts"])):
+                    or mpm.get_motif_topology(s) != label_key(lab)):
                 parse_ok = False
         return {"fresh": fresh, "history": hist, "float25": fl, "edge_order": edge_order, "node_order": list(G.nodes()),
                 "parse_ok": parse_ok, "float_ladder": [ladder, fl_ladder, fl_ladder5]}
